@@ -961,6 +961,9 @@ class HTTPResponse(BaseHTTPResponse):
 
         if amt is None:
             data = self._decode(data, decode_content, flush_decoder)
+            if len(self._decoded_buffer) > 0:
+                # Bytes decoded by earlier partial reads but not yet returned.
+                data = self._decoded_buffer.get_all() + data
             if cache_content:
                 self._body = data
         else:
